@@ -68,7 +68,7 @@ KERNELS_OF = {
             "typed_get_mut_trace", "typed_at_trace", "typed_at_mut_trace", "anyvec_iter_trace", "anyvec_iter_mut_trace",
             "value_swap_unchecked_trace", "anyvec_insert_unchecked_trace", "anyvec_push_unchecked_trace", "anyvec_get_unchecked_trace", "anyvec_get_unchecked_mut_trace", "typed_iter_mut_trace", "typed_get_unchecked_trace", "typed_get_unchecked_mut_trace", "opsiter_next_trace", "opsiter_next_back_trace", "opsiter_len_trace", "opsiter_size_hint_trace", "temp_bytes_len_trace", "temp_size_trace", "temp_as_bytes_ptr_trace", "temp_clone_into_trace", "element_size_trace", "element_value_typeid_trace", "element_clone_into_trace", "lib_copy_nonoverlapping_value_trace", "ptr_element_size_trace", "ptr_element_typeid_trace"],
     "C14": ["iter_len", "iter_next", "iter_next_back", "iter_clone",
-            "iter_new_fields"],
+            "iter_new_fields", "into_range", "drain_new", "splice_new"],
     "C06": ["pop_new", "remove_new", "swap_remove_new", "drain_new", "splice_new", "insert_unchecked_cmds", "clear_cmds",
             "temp_drop_cmds", "splice_drop_pre_cmds", "splice_drop_post_cmds"],
     "C07": ["pop_new", "remove_new", "swap_remove_new", "drain_new", "splice_new", "temp_drop_cmds", "drain_drop_cmds"],
